@@ -204,6 +204,7 @@ contract('odml/section.py::BaseSection.name.setter',
                              'field(self, "_parent") is not None and '
                              'name_used(field(self, "_parent")._sections, eff_name(new_value, self))'},
          on_raise='Same',
+         modifies=[('self', '_name')],
          props=('C04', 'C06'))
 
 contract('odml/property.py::BaseProperty.name.setter',
@@ -214,6 +215,7 @@ contract('odml/property.py::BaseProperty.name.setter',
                              'field(self, "_parent") is not None and '
                              'name_used(field(self, "_parent")._props, eff_name(new_name, self))'},
          on_raise='Same',
+         modifies=[('self', '_name')],
          props=('C04', 'C06'))
 
 # ---- ids ----------------------------------------------------------------------------------------
@@ -226,7 +228,8 @@ for _fid, _cls in (('odml/section.py::BaseSection.new_id', 'BaseSection'),
              ensures=['canon_uuid(field(self, "_id"))'],
              raises={'ValueError': 'oid is not None and not uuid_ok(oid)'},
              on_raise='Same',
-             props=('C04', 'C06'))
+             modifies=[('self', '_id')],
+             props=('C04', 'C06', 'C11'))
 
 # ---- reorder ------------------------------------------------------------------------------------
 contract('odml/section.py::BaseSection.reorder',
